@@ -154,7 +154,36 @@ func (e *Engine) callExternal(fn *types.Func, recv Value, args []Value, cx *ast.
 		r := mkApp("reflect_iface", SRef, term(recv))
 		ts := mkApp("reflect_typestr", SStr, mkApp("reflect_type", SRef, term(recv)))
 		st.assume(mkImplies(mkEq(ts, mkConst("str_"+sanitize("time.Time"), SStr)), mkApp("dyn_is_"+sanitize("time.Time"), SBool, r)))
+		// ... and the time it holds is the value's time payload
+		tv := st.getMem("rval_Time:"+term(recv).String(), mkApp("rval_Time", SInt, term(recv)))
+		st.assume(mkEq(mkApp("dyn_as_"+sanitize("time.Time")+"__Int", SInt, r), tv))
 		return VTerm{T: r, Typ: fn.Type().(*types.Signature).Results().At(0).Type()}
+	case "reflect.ValueOf":
+		// a fresh reflect.Value holding the argument (only time values are related to their payload)
+		r := e.fresh("rvalue", SRef)
+		if a, ok := args[0].(VTerm); ok && isTimeType(a.Typ) {
+			st.mem["rval_Time:"+r.String()] = a.T
+		}
+		return VTerm{T: r, Typ: fn.Type().(*types.Signature).Results().At(0).Type()}
+	case "reflect.Value.Set":
+		if a, ok := args[0].(VTerm); ok {
+			st.mem["rval_Time:"+term(recv).String()] = st.getMem("rval_Time:"+a.T.String(), mkApp("rval_Time", SInt, a.T))
+		}
+		return VTuple{}
+	case "time.Parse":
+		// assumed round trip: parsing, with the same layout, what Format produced for an instant that the layout can
+		// express (whole days for "2006-01-02") returns that instant and no error
+		e.notes["assumed external: time.Parse(layout, t.Format(layout)) == t for instants the layout can express"] = true
+		sig := fn.Type().(*types.Signature)
+		val := e.fresh("parsedtime", SInt)
+		err := e.fresh("err", SRef)
+		e.nfresh++
+		x := mkVar(fmt.Sprintf("t$%d", e.nfresh), SInt)
+		formatted := mkApp("str_TimeFormat", SStr, x, term(args[0]))
+		st.assume(mkForall([]*Term{x}, mkImplies(mkEq(term(args[1]), formatted), mkAnd(mkEq(err, mkConst("nil", SRef)), mkEq(val, x))), [][]*Term{{formatted}}))
+		return VTuple{VTerm{T: val, Typ: sig.Results().At(0).Type()}, VTerm{T: err, Typ: sig.Results().At(1).Type()}}
+	case "time.Time.Format":
+		return VTerm{T: mkApp("str_TimeFormat", SStr, term(recv), term(args[0])), Typ: types.Typ[types.String]}
 	case "reflect.Value.String", "reflect.Value.Bool", "reflect.Value.Int", "reflect.Value.Uint", "reflect.Value.Float":
 		// the payload of a reflect.Value, one ghost per accessor (rval_Float(v), ...)
 		rt := fn.Type().(*types.Signature).Results().At(0).Type()
@@ -353,7 +382,7 @@ func (e *Engine) callExternal(fn *types.Func, recv Value, args []Value, cx *ast.
 		return VTerm{T: r, Typ: types.Typ[types.String]}
 	case "io/fs.DirEntry.Name":
 		return VTerm{T: mkApp("direntry_name", SStr, term(recv)), Typ: types.Typ[types.String]}
-	case "fmt.Sprintf", "fmt.Sprint", "time.Time.String", "time.Time.Format":
+	case "fmt.Sprintf", "fmt.Sprint", "time.Time.String":
 		if full == "fmt.Sprintf" && len(cx.Args) >= 1 {
 			// a constant format made of literal text and %s verbs over string arguments is a concatenation
 			if tv, ok := e.info().Types[cx.Args[0]]; ok && tv.Value != nil && tv.Value.Kind() == constant.String {
